@@ -1,12 +1,14 @@
 //! Graceful shutdown of the real endpoint (`Core::listen` on a loopback port) with live sessions of every transport.
 //! in : [sessions mask: 1 = HTTP/1.1 tunnel in use, 2 = HTTP/2 connection with an open tunnel stream, 4 = HTTP/3 (QUIC) connection with
-//!       an open tunnel stream, 8 = idle TLS connection (HTTP/1.1, no request yet), 16 = idle HTTP/2 connection]
+//!       an open tunnel stream, 8 = idle TLS connection (HTTP/1.1, no request yet), 16 = idle HTTP/2 connection,
+//!       32 = before the submission, wait 300 ms for completion (it must stay pending: the listener is a participant)]
 //! out: [996] | [sessions established mask,
 //!       listener returned Ok after the submission,
 //!       wound-down mask (HTTP/1.1: closed by the endpoint; HTTP/2: GOAWAY / connection ended; HTTP/3: QUIC connection closed),
 //!       completion returned (within 3 s of the submission),
 //!       completion returned before the last session had been wound down (0|1),
-//!       a new TCP connection is still accepted afterwards (0|1)]
+//!       a new TCP connection is still accepted afterwards (0|1),
+//!       completion returned before anything was submitted (0|1)]
 use crate::util::*;
 use std::time::Duration;
 use tokio::io::{AsyncReadExt, AsyncWriteExt};
@@ -140,8 +142,15 @@ pub fn run(toks: Vec<Tok>) -> Vec<Tok> {
             }
         }
 
-        // ---- submission, as endpoint/src/main.rs does it
+        // ---- (bit 32) waiting for completion before anything was submitted: the listener and the sessions are running,
+        // so the wait must still be pending after 300 ms
         let shutdown = ep.shutdown.clone();
+        let mut premature = 0u128;
+        if mask & 32 != 0 {
+            let mut g = shutdown.lock().unwrap();
+            premature = tokio::time::timeout(Duration::from_millis(300), g.completion()).await.is_ok() as u128;
+        }
+        // ---- submission, as endpoint/src/main.rs does it
         shutdown.lock().unwrap().submit();
         let submitted = std::time::Instant::now();
         let wound = std::sync::Arc::new(std::sync::atomic::AtomicU64::new(0));
@@ -227,6 +236,6 @@ pub fn run(toks: Vec<Tok>) -> Vec<Tok> {
         // completion before the last wind-down was seen by its client, by more than the time the notice needs to travel
         let early = (completion && w == established && completion_ms + 300 < last_wound_ms.load(std::sync::atomic::Ordering::SeqCst)) as u128;
         let accepts = tokio::net::TcpStream::connect(ep.addr).await.is_ok() as u128;
-        vec![vec![established, listener_ok as u128, w, completion as u128, early, accepts]]
+        vec![vec![established, listener_ok as u128, w, completion as u128, early, accepts, premature]]
     })
 }
